@@ -196,6 +196,11 @@ def cases(rnd):
     add('m_split', {'size': [1, 3], 'dim': 2, 'pick': 1}, {'x': x5}, prims.t_split(a5(), [1, 3], 2)[1], {'x': x5})
     add('m_narrow', {'dim': 3, 'start': 1, 'length': 3}, {'x': x5}, TM['narrow'](None, a5(), 3, 1, 3), {'x': x5})
     add('m_flatten', {'start': 1, 'end': 2}, {'x': x5}, TM['flatten'](None, a5(), 1, 2), {'x': x5})
+    x12 = rnd_array(rnd, (2, 6, 4, 5))
+    add('m_unflatten', {'dim': 1, 'sizes': [3, 2]}, {'x': x12}, prims._m_unflatten(atom_tensor('x', (2, 6, 4, 5)), 1, [3, 2]), {'x': x12})
+    add('m_unflatten', {'dim': -2, 'sizes': [2, -1]}, {'x': x12}, prims._m_unflatten(atom_tensor('x', (2, 6, 4, 5)), -2, [2, -1]), {'x': x12})
+    add('m_movedim', {'src': 1, 'dst': -1}, {'x': x12}, t_contiguous(prims._m_movedim(atom_tensor('x', (2, 6, 4, 5)), 1, -1)), {'x': x12})
+    add('m_movedim', {'src': 3, 'dst': 0}, {'x': x12}, t_contiguous(prims._m_movedim(atom_tensor('x', (2, 6, 4, 5)), 3, 0)), {'x': x12})
     x6 = rnd_array(rnd, (1, 3, 1, 5))
     add('m_expand', {'sizes': [2, 2, 3, 4, 5]}, {'x': x6}, t_contiguous(TM['expand'](None, atom_tensor('x', (1, 3, 1, 5)), 2, 2, 3, 4, 5)), {'x': x6})
     add('m_expand', {'sizes': [-1, -1, 2, -1]}, {'x': x6}, t_contiguous(TM['expand'](None, atom_tensor('x', (1, 3, 1, 5)), -1, -1, 2, -1)), {'x': x6})
